@@ -1,9 +1,12 @@
 import TieI.InitProofs
+import TieI.ExprProofs
+import DsProofs.Properties.C11
 import DsProofs.Properties.C12
 /-!
 # TIEI — the data path of `Provenance.__init__` for 1-D data AS IT IS WRITTEN NOW
 (`GenI/Init.lean`, template translation by `harness/translate_init.py`: the `else` branch of `__init__` must be exactly the known statements)
 
+* `TIEI_exprs`: `Provenance(expressions)` pads every formula to the widest one and stacks them — the model's `ofExprs` container (C11's container clause, C05).
 * `TIEI_default`: `Provenance(units=n)` stores exactly the model's default container (row `i` = `x_i == c` for every non-null candidate `c`) and sets `is_simple`.
 * `TIEI_groups`: `Provenance(data=ids)` for a vector of group identifiers registers the distinct identifiers other than -1 in sorted order as its units and stores
   exactly the model's `ofGroups` container — every identifier translated to its unit POSITION (the F8 clause), one row per entry and non-null candidate — and does
@@ -22,6 +25,13 @@ theorem TIEI_groups (uniq : List Int → List Int) (ids : List Int) (c : ℕ)
     (huniq : (uniq ids).filter (fun u => u != (-1 : Int)) = uniqueIds ids) :
     GenI.init_groups uniq ids (c : Int) = (uniqueIds ids, toA4 (Prov.ofGroups ids c), false) :=
   groups_eq uniq ids c huniq
+
+/-- `Provenance(expressions)` as written (template; a non-empty list — the `if expressions is not None and len(expressions) > 0` guard): every formula's array padded with -1 to
+the largest number of disjuncts / conjuncts and stacked = the model's `ofExprs` container, about which `C11_container` (reading row `i` back yields the truth table of the `i`-th
+input) and `C05_ofExprs` speak -/
+theorem TIEI_exprs (es : List Expr) (n c : ℕ) (hne : es ≠ []) :
+    GenI.init_expressions (es.map Ds.GenCont.v3) = toA4 (Prov.ofExprs es n c) :=
+  exprs_eq es n c hne
 
 /-! ### non-vacuity -/
 example : (GenI.init_groups (fun _ => [-1, 5, 7]) [5, 7, 5, -1] 2).1 = [5, 7] := by decide
